@@ -100,20 +100,73 @@ theorem d2_parse (n : Nat) (h : n < 100) :
   refine ⟨n / 10 % 10, n % 10, rfl, digitVal_digit _ (Nat.mod_lt _ (by decide)), digitVal_digit _ (Nat.mod_lt _ (by decide)), ?_⟩
   omega
 
-/-- the reader's offset parser inverts chrono's offset text (whole minutes, below 24 h, not zero) -/
-theorem parseOffTxt_offsetText (off : Int) (h60 : off % 60 = 0) (hlt : off.natAbs < 86400) (hne : off ≠ 0) :
-    parseOffTxt (rfcOffsetText off) = some (.fixed (decide (0 < off)) off.natAbs) := by
-  have ha : off.natAbs % 60 = 0 := by omega
-  obtain ⟨a, b, e1, ha', hb', hab⟩ := d2_parse (off.natAbs / 3600) (by omega)
-  obtain ⟨x, y, e2, hx', hy', hxy⟩ := d2_parse (off.natAbs % 3600 / 60) (by omega)
-  have hdur : (a * 10 + b) * 3600 + (x * 10 + y) * 60 = off.natAbs := by rw [hab, hxy]; omega
-  simp only [rfcOffsetText, hne, if_false, offsetText, ha, if_true, e1, e2, List.cons_append, List.nil_append,
-    List.append_nil]
+/-! ### rounding to the minute -/
+
+theorem roundMin_nonneg {o : Int} (h : 0 ≤ o) : roundMin o = (o + 30) / 60 * 60 := by
+  unfold roundMin
+  rcases Int.lt_or_eq_of_le h with hp | rfl
+  · rw [Int.sign_eq_one_of_pos hp, Int.natAbs_of_nonneg h, Int.one_mul]
+  · simp
+
+theorem roundMin_neg {o : Int} (h : o < 0) : roundMin o = -((-o + 30) / 60 * 60) := by
+  unfold roundMin
+  have : ((o.natAbs : Nat) : Int) = -o := by omega
+  rw [Int.sign_eq_neg_one_of_neg h, this]
+  omega
+
+/-- an offset of whole minutes is its own text offset -/
+theorem roundMin_of_whole {o : Int} (h : o % 60 = 0) : roundMin o = o := by
+  by_cases hn : o < 0
+  · rw [roundMin_neg hn]; omega
+  · rw [roundMin_nonneg (by omega)]; omega
+
+/-- the text offset is the offset to within half a minute, on the same side of zero, in whole minutes -/
+theorem roundMin_bounds (o : Int) : roundMin o % 60 = 0 ∧ -30 ≤ o - roundMin o ∧ o - roundMin o ≤ 30 ∧
+    (0 ≤ o → 0 ≤ roundMin o) ∧ (o ≤ 0 → roundMin o ≤ 0) := by
+  by_cases hn : o < 0
+  · rw [roundMin_neg hn]; omega
+  · rw [roundMin_nonneg (by omega)]; omega
+
+theorem roundMin_natAbs (o : Int) : (roundMin o).natAbs = (o.natAbs + 30) / 60 * 60 := by
+  by_cases hn : o < 0
+  · rw [roundMin_neg hn]; omega
+  · rw [roundMin_nonneg (by omega)]; omega
+
+/-- the reader's offset parser inverts chrono's RFC 3339 offset text: for ANY offset but zero whose
+rounded minutes stay below 24 h it reads the sign and the offset rounded to the minute -/
+theorem parseOffTxt_rfcOffsetText (off : Int) (hlt : (off.natAbs + 30) / 60 < 1440) (hne : off ≠ 0) :
+    parseOffTxt (rfcOffsetText off) = some (.fixed (decide (0 < off)) ((off.natAbs + 30) / 60 * 60)) := by
+  obtain ⟨a, b, e1, ha', hb', hab⟩ := d2_parse ((off.natAbs + 30) / 60 / 60) (by omega)
+  obtain ⟨x, y, e2, hx', hy', hxy⟩ := d2_parse ((off.natAbs + 30) / 60 % 60) (by omega)
+  have hdur : (a * 10 + b) * 3600 + (x * 10 + y) * 60 = (off.natAbs + 30) / 60 * 60 := by rw [hab, hxy]; omega
+  simp only [rfcOffsetText, hne, if_false, minuteOffsetText, e1, e2, List.cons_append, List.nil_append]
   by_cases hneg : off < 0
   · have : ¬ (0 < off) := by omega
     simp [parseOffTxt, hneg, ha', hb', hx', hy', hdur, this]
   · have : 0 < off := by omega
     simp [parseOffTxt, hneg, ha', hb', hx', hy', hdur, this]
+
+/-! ### `make_date_time_from_text` -/
+
+/-- where the zone's offset is a whole number of minutes nothing is corrected -/
+theorem fromText_of_whole (db : TzDb) (secs : Int) (ns : Nat) (written : Int) (name z : List Char)
+    (hres : findTimezone name = some z) (h60 : db.offsetAt z secs % 60 = 0) :
+    makeDateTimeFromText db secs ns written name = .ok ⟨secs, ns, z⟩ := by
+  have hr := roundMin_of_whole h60
+  simp [makeDateTimeFromText, makeDateTimeWithTz, hres, DT.offset, hr]
+
+/-- the text of the instant `secs` in a zone whose offset `o` there has seconds carries the instant
+`secs + (o − rounded o)`; when the zone's offset is `o` there as well, the reader returns `secs` -/
+theorem fromText_exact (db : TzDb) (secs : Int) (ns : Nat) (name z : List Char)
+    (hres : findTimezone name = some z)
+    (hst : db.offsetAt z (secs + (db.offsetAt z secs - roundMin (db.offsetAt z secs))) = db.offsetAt z secs) :
+    makeDateTimeFromText db (secs + (db.offsetAt z secs - roundMin (db.offsetAt z secs))) ns
+      (roundMin (db.offsetAt z secs)) name = .ok ⟨secs, ns, z⟩ := by
+  generalize ho : db.offsetAt z secs = o at hst
+  have hback : secs + (o - roundMin o) - (o - roundMin o) = secs := by omega
+  by_cases he : o - roundMin o = 0
+  · simp [makeDateTimeFromText, makeDateTimeWithTz, hres, DT.offset, he, ho]
+  · simp [makeDateTimeFromText, makeDateTimeWithTz, hres, DT.offset, hst, he, hback, ho]
 
 /-! ### the zone derived from an offset -/
 
@@ -145,6 +198,23 @@ theorem rfcZone_minutes (off : Int) (h60 : off % 60 = 0) (hlt : off.natAbs < 864
     rw [this]; exact t.2
   · have : off = Int.ofNat off.natAbs := by simp only [Int.ofNat_eq_natCast]; omega
     rw [this]; exact t.1
+
+/-- an offset `make_date_time` accepts: whole minutes below 24 h and, when whole hours, −12 h … +14 h -/
+def RfcOk (off : Int) : Prop := off % 60 = 0 ∧ off.natAbs < 86400 ∧ (off % 3600 = 0 → -43200 ≤ off ∧ off ≤ 50400)
+
+theorem RfcOk_of_OffsetOk {off : Int} (h : OffsetOk off) : RfcOk off := ⟨h.1, by have := h.2; omega, fun _ => h.2⟩
+
+theorem rfcZone_ok' (off : Int) (h : RfcOk off) :
+    rfcZone off = .ok (if off % 3600 = 0 then etcName (off / 3600) else utcName) := by
+  obtain ⟨h60, hlt, hw'⟩ := h
+  by_cases hw : off % 3600 = 0
+  · rw [if_pos hw]
+    obtain ⟨hlo, hhi⟩ := hw' hw
+    have hn : off / 3600 ∈ etcHours := mem_etcHours (by omega) (by omega)
+    have := rfcZone_hours hn
+    rwa [show off / 3600 * 3600 = off by omega] at this
+  · rw [if_neg hw]
+    exact rfcZone_minutes off h60 hlt hw
 
 /-- none of the offsets −12:00 … +14:00 (whole minutes) is rejected; the zone is the fixed
 `Etc/GMT∓N` zone for whole hours and UTC otherwise -/
